@@ -366,6 +366,12 @@ pub enum CompileResult {
 
 /// Compile `gen.rs` (the emitted text, verbatim) + `main.rs` in `dir`.
 pub fn compile(dir: &Path, emitted: &str, main_rs: &str, metadata_only: bool) -> CompileResult {
+    compile_with(dir, emitted, main_rs, metadata_only, false)
+}
+
+/// `release_like`: the emitted module compiled the way `cargo build --release` compiles it - debug
+/// assertions and overflow checks OFF (kept at opt-level 0: only the semantics matter here).
+pub fn compile_with(dir: &Path, emitted: &str, main_rs: &str, metadata_only: bool, release_like: bool) -> CompileResult {
     if let Err(e) = std::fs::create_dir_all(dir) {
         return CompileResult::Unavailable(format!("mkdir: {e}"));
     }
@@ -385,6 +391,9 @@ pub fn compile(dir: &Path, emitted: &str, main_rs: &str, metadata_only: bool) ->
         cmd.arg("--emit=metadata").arg("--crate-type=lib").arg("-o").arg("m.rmeta");
     } else {
         cmd.arg("-C").arg("opt-level=0").arg("-o").arg("m");
+        if release_like {
+            cmd.arg("-C").arg("debug-assertions=off").arg("-C").arg("overflow-checks=off");
+        }
     }
     cmd.arg("main.rs").stdin(Stdio::null()).stdout(Stdio::piped()).stderr(Stdio::piped());
     crate::util::limit_cpu_and_memory(&mut cmd, 300, 8 << 30);
